@@ -592,8 +592,12 @@ BlockDiff(want, got, name) ==
 
 \* the wallet's master node, derived by the specification from the source secret of the event
 MasterFromInp(e) ==
-  LET seed == IF "seed" \in DOMAIN e.inp THEN e.inp.seed ELSE B39!Seed(e, e.inp.mnemonic, e.inp.password)
-  IN K32!Master(e, seed, e.inp.net).node
+  IF "import" \in DOMAIN e.inp
+  THEN \* a wallet imported from a (master-level) extended private key of any flavour: the key IS the master
+       LET q == ParsePayload(DecodeExt(e, e.inp.import).body, TRUE, e.inp.net)
+       IN K32!PrvNode(e, Drop(q.keydata, 1), q.c, q.depth, q.idx, q.pfp, q.net)
+  ELSE LET seed == IF "seed" \in DOMAIN e.inp THEN e.inp.seed ELSE B39!Seed(e, e.inp.mnemonic, e.inp.password)
+       IN K32!Master(e, seed, e.inp.net).node
 
 \* e.inp = [mnemonic, password | seed, net, account, start, end]; e.res.v = [mnemonic, password, bip44, bip49, bip84]
 V_Generate(e) ==
